@@ -97,7 +97,11 @@ fn canonical(prop: &str, thorough: bool, seed: u64, rep: &mut Report) {
             let shuffled = shuffle(&v, &mut rng);
             let got2 = canon_text(&shuffled);
             if got2 != got { rep.violation("canonical output blind to member order", "order", format!("{:?} vs {:?}", v, shuffled), format!("{:?} vs {:?}", got, got2)); }
-            // blind to whitespace / escape spelling / numerically equal spellings: print differently, parse, canonicalize
+            // blind to numerically equal spellings, at every position of the value (also arrays in arrays)
+            let respelled = respell(&v, &mut rng);
+            let got3 = canon_text(&respelled);
+            if got3 != got { rep.violation("numerically equal spellings have the same canonical output", "number-eq-nested", format!("{:?} vs {:?}", v, respelled), format!("{:?} vs {:?}", got, got3)); }
+            // blind to whitespace / escape spelling: print differently, parse, canonicalize
             let pretty = to_real(&v).pretty_print().to_string();
             if let Ok((mut back, _)) = Value::parse_str(&pretty) { back.canonicalize(); if back.compact_print().to_string() != got { rep.violation("canonical output blind to whitespace", "spacing", format!("{:?}", v), "".into()); } }
             // nothing else changes: structure, strings, booleans, nulls; and still queryable by key
@@ -107,6 +111,19 @@ fn canonical(prop: &str, thorough: bool, seed: u64, rep: &mut Report) {
         }
     }
     if prop == "C10" {
+        // every container nesting of depth <= 3 around a number that needs respelling and around an
+        // object that needs sorting
+        let wrap = |k: usize, x: RefValue| -> RefValue { match k { 0 => RefValue::Arr(vec![x]), 1 => RefValue::Arr(vec![RefValue::Null, x]), _ => RefValue::Obj(vec![("k".to_string(), x)]) } };
+        for k1 in 0..3 { for k2 in 0..3 { for k3 in 0..3 {
+            let a = wrap(k1, wrap(k2, wrap(k3, RefValue::Num("1.0".into())))); let b = wrap(k1, wrap(k2, wrap(k3, RefValue::Num("1".into()))));
+            let (x, y) = (canon_text(&a), canon_text(&b));
+            rep.eval(true, fnv(x.as_bytes()) ^ (k1 * 9 + k2 * 3 + k3) as u64);
+            if x != y { rep.violation("numerically equal spellings have the same canonical output", "number-eq-nesting", format!("{:?} vs {:?}", a, b), format!("{} vs {}", x, y)); }
+            let o1 = RefValue::Obj(vec![("b".into(), RefValue::Num("1".into())), ("a".into(), RefValue::Num("2".into()))]);
+            let o2 = RefValue::Obj(vec![("a".into(), RefValue::Num("2".into())), ("b".into(), RefValue::Num("1".into()))]);
+            let (x, y) = (canon_text(&wrap(k1, wrap(k2, wrap(k3, o1)))), canon_text(&wrap(k1, wrap(k2, wrap(k3, o2)))));
+            if x != y { rep.violation("canonical output blind to member order", "order-nesting", format!("nesting {} {} {}", k1, k2, k3), format!("{} vs {}", x, y)); }
+        } } }
         for (a, b) in [("1.0", "1"), ("10e-1", "1"), ("1e2", "100"), ("4.50", "4.5"), ("-0", "0")] {
             let x = canon_text(&RefValue::Arr(vec![RefValue::Num(a.into())])); let y = canon_text(&RefValue::Arr(vec![RefValue::Num(b.into())]));
             rep.eval(true, fnv(a.as_bytes()));
@@ -120,6 +137,21 @@ fn canonical(prop: &str, thorough: bool, seed: u64, rep: &mut Report) {
 fn by_key(v: &RefValue) -> RefValue { match v { RefValue::Arr(a) => RefValue::Arr(a.iter().map(by_key).collect()), RefValue::Obj(es) => { let mut es: Vec<(String, RefValue)> = es.iter().map(|(k, x)| (k.clone(), by_key(x))).collect(); es.sort(); RefValue::Obj(es) } o => o.clone() } }
 
 fn strip_numbers(v: &RefValue) -> RefValue { match v { RefValue::Num(_) => RefValue::Num("#".into()), RefValue::Arr(a) => RefValue::Arr(a.iter().map(strip_numbers).collect()), RefValue::Obj(es) => RefValue::Obj(es.iter().map(|(k, x)| (k.clone(), strip_numbers(x))).collect()), o => o.clone() } }
+
+/// the same value with every number replaced by another spelling of the same double (where the
+/// table has one)
+fn respell(v: &RefValue, rng: &mut Rng) -> RefValue {
+    match v {
+        RefValue::Num(n) => {
+            let canon = NUMBERS.iter().find(|(a, _)| a == n).map(|(_, b)| *b);
+            let alts: Vec<&str> = match canon { Some(c) => NUMBERS.iter().filter(|(a, b)| *b == c && a != n).map(|(a, _)| *a).collect(), None => vec![] };
+            if alts.is_empty() { v.clone() } else { RefValue::Num(alts[rng.below(alts.len())].to_string()) }
+        }
+        RefValue::Arr(a) => RefValue::Arr(a.iter().map(|x| respell(x, rng)).collect()),
+        RefValue::Obj(es) => RefValue::Obj(es.iter().map(|(k, x)| (k.clone(), respell(x, rng))).collect()),
+        o => o.clone(),
+    }
+}
 
 fn shuffle(v: &RefValue, rng: &mut Rng) -> RefValue {
     match v {
